@@ -6,7 +6,7 @@ export VERIF_EVIDENCE_DIR=/dev/shm/jammdb-verif-soak-evidence
 for seed in "$@"; do
   for c in C01 C02 C03 C04 C05 C06 C07 C08 C09 C10 C11 C12 C13 C15 C16; do
     s=$(date +%s)
-    VERIF_SEED=$seed timeout 3600 ./check $c --tier ${TIER:-quick} > /dev/shm/soak-$c-$seed.out 2>&1
+    VERIF_SEED=$seed timeout ${SOAK_TIMEOUT:-3600} ./check $c --tier ${TIER:-quick} > /dev/shm/soak-$c-$seed.out 2>&1
     rc=$?
     echo "seed=$seed $c rc=$rc $(( $(date +%s) - s ))s $(grep -c '^VIOLATION' /dev/shm/soak-$c-$seed.out) violations" | tee -a ${SOAK_LOG:-/verif/work/soak.log}
     [ $rc -eq 0 ] && rm -f /dev/shm/soak-$c-$seed.out
